@@ -26,6 +26,7 @@ const (
 	Torn        Action = "torn"         // dio.WriteAt / blob file: write a prefix, then os.Exit(77)
 	Pause       Action = "pause"        // signal Paused, block until Resume
 	PauseAfter  Action = "pause-after"  // delegate, then pause
+	PauseFail   Action = "pause-fail"   // pause; after Resume return the injected error without delegating
 )
 
 // ErrInjected is the error returned by fail actions (a plain error: sop.ShouldRetry treats it as retryable).
@@ -153,6 +154,9 @@ func do(label string, call func() error) error {
 		crash()
 	case Pause:
 		p.pause()
+	case PauseFail:
+		p.pause()
+		return ErrInjected
 	}
 	err := call()
 	switch act {
